@@ -59,3 +59,35 @@ Theorem gen_box_bytes_views ENV b p l :
   (x <- Gen.Alloc.box_bytes_into_raw_parts ENV b ;; Gen.Alloc.box_bytes_from_raw_parts ENV (fst x) (snd x)) = Ret b.
 Proof. destruct b as [bp bl]. repeat split; reflexivity. Qed.
 
+
+(* ---- the public functions box_bytes_of / try_from_box_bytes / from_box_bytes ----
+   `T: sealed::… + ?Sized`: the translated function takes the flag `unsized_T` and calls the impl for [T]
+   (T then being the element type) or the impl for T. *)
+Theorem gen_box_bytes_public ENV T u c b :
+  Gen.Alloc.box_bytes_of ENV T u c = Ret (if u then box_bytes_of_slice T c else box_bytes_of_sized T c) /\
+  Gen.Alloc.try_from_box_bytes ENV T u b = Ret (if u then try_from_box_bytes_slice T b else try_from_box_bytes_sized T b).
+Proof.
+  unfold Gen.Alloc.box_bytes_of, Gen.Alloc.try_from_box_bytes.
+  destruct u; rewrite ?gen_box_bytes_of_slice, ?gen_box_bytes_of_sized,
+    ?gen_try_from_box_bytes_slice, ?gen_try_from_box_bytes_sized, ?bind_ret_r; cbn [bind]; split; reflexivity.
+Qed.
+
+(* from_box_bytes is try_from_box_bytes unwrapped: the converted Box when that succeeds; otherwise the
+   ordinary unwrap panic carrying the error (the BoxBytes that came back with the error is dropped) *)
+Theorem gen_from_box_bytes_twin ENV T u b :
+  exists r, Gen.Alloc.try_from_box_bytes ENV T u b = Ret r /\
+    match r with
+    | Ok c => Gen.Alloc.from_box_bytes ENV T u b = Ret c
+    | Err (e, b0) => Gen.Alloc.from_box_bytes ENV T u b = Panic (W_unwrap (EP e)) /\ b0 = b
+    end.
+Proof.
+  destruct (gen_box_bytes_public ENV T u (mkCont 0 0 0) b) as [_ Ht].
+  eexists. split; [exact Ht|].
+  unfold Gen.Alloc.from_box_bytes. rewrite Ht. cbn [bind].
+  pose proof (AllocProofs.from_bb_sized_char T b) as Hs. pose proof (AllocProofs.from_bb_slice_char T b) as Hl.
+  destruct u.
+  - destruct (try_from_box_bytes_slice T b) as [c|[e b0]]; cbn [bind]; [reflexivity|].
+    split; [reflexivity | apply Hl].
+  - destruct (try_from_box_bytes_sized T b) as [c|[e b0]]; cbn [bind]; [reflexivity|].
+    split; [reflexivity | apply Hs].
+Qed.
